@@ -670,6 +670,13 @@ impl<'a> Gen<'a> {
             let p = self.pct();
             let how = if self.rng.chance(1, 5) { "slash-direct" } else { "slash" };
             self.op(format!("{} v{} {}", how, v + 1, p));
+        } else if k < 83 && self.nvals < 4 && self.rng.chance(1, 3) {
+            // a validator registered AFTER genesis, possibly while unbondings are pending: nothing else may change
+            const E: u128 = 1_000_000_000_000_000_000;
+            let c = self.rng.pick(&[0, E / 10, E / 20]);
+            self.nvals += 1;
+            let n = self.nvals;
+            self.op(format!("validator v{} {}", n, c));
         } else {
             let s = self.secs();
             self.advance(s);
